@@ -513,7 +513,7 @@ def check_contract(rep: Report, repo, con, registry, known_open, budget_ms, kmax
         inst = G.instances[len(G.instances) // 2]
         rep.samples.append({"obligation": inst.oid, "goal": str(z3.simplify(inst.goal))[:400], "hypotheses": len(inst.hyps)})
     # vacuity guard: some returning path of every variant must be satisfiable on a small finite universe
-    if not (_cover_expr(G, rep) if is_expr else _cover_ok(repo, con, rep)):
+    if not (_cover_expr(G, rep) if (is_expr or getattr(con, "domain", "graph") == "graph+expr") else _cover_ok(repo, con, rep)):
         rep.errors.append(f"vacuous contract: no satisfiable returning path for {con.qual}")
     if open_oids and is_expr:
         # candidate counterexamples of expression obligations are confirmed by searching concrete expressions
@@ -543,7 +543,7 @@ def check_contract(rep: Report, repo, con, registry, known_open, budget_ms, kmax
                 o.reason = o.reason or "candidate counter-model, not confirmed on concrete expressions"
                 rep.undecided.append(o)
         return
-    if open_oids:
+    if open_oids and getattr(con, "domain", "graph") == "graph":
         found = finite_search(repo, con, open_oids, kmax, budget_ms)
         for oid, (k, vi, model, note) in found.items():
             o = by[oid]
@@ -556,7 +556,7 @@ def check_contract(rep: Report, repo, con, registry, known_open, budget_ms, kmax
             rep.undecided.append(o)
             continue
         # refuted
-        if o.model is None and "closure" in o.theory_detail and o.oid not in rep.baseline:
+        if o.model is None and ("closure" in o.theory_detail or getattr(con, "domain", "graph") != "graph") and o.oid not in rep.baseline:
             # a `sat` answer over the axiomatised closures is only a candidate (DESIGN §2.5); without a finite model it counts
             # as refuted only for an obligation that is discharged on the unchanged tree (baseline/obligations.json)
             o.status, o.reason = "undecided", "candidate counter-model over axiomatised closures, none found in finite exact mode"
@@ -587,19 +587,27 @@ def check_contract(rep: Report, repo, con, registry, known_open, budget_ms, kmax
 
 
 def _cover_expr(G, rep):
+    """Vacuity guard: some returning path must not be contradictory (`sat`, or `unknown` for quantified path conditions:
+    only a definite `unsat` on every returning path counts as vacuous)."""
     import z3
+    undecided = False
     for L, pc, probes, vi in G.cover:
         rep.cover["checked"] += 1
         s = z3.Solver()
-        s.set("timeout", 5000)
+        s.set("timeout", 3000)
         for a in L.relevant_axioms(pc):
             s.add(a)
         for f in pc:
             s.add(f)
-        if s.check() == z3.sat:
+        r = s.check()
+        if r == z3.sat:
             rep.cover["sat"] += 1
             return True
-    return False
+        if r == z3.unknown:
+            undecided = True
+    if undecided:
+        rep.cover["unknown"] = rep.cover.get("unknown", 0) + 1
+    return undecided
 
 
 def _cover_ok(repo, con, rep):
@@ -645,6 +653,8 @@ def run(pid, tier, seed, extra=None):
         undecided_funcs = {o.oid.split("/")[0] for o in rep.undecided}
         for con in cons:
             try:
+                if getattr(con, "domain", "graph") == "graph+expr":
+                    continue      # records mixing graphs and expressions: the property-level bounded part covers these functions
                 if getattr(con, "domain", "graph") == "expr":
                     deep = con.qual in undecided_funcs or con.qual in rep.bounded_only
                     n = (4000 if deep else 150) if tier == "quick" else (40000 if deep else 3000)
